@@ -1,4 +1,5 @@
-"""Predicates of the open findings of C09 (see known/C09.json)."""
+"""Predicates of the findings of C09 (see known/C09.json).  C09-F1 is fixed (2598ca8) and its entry has
+`predicate: null`, so nothing here is active; the predicate is kept for a re-opened finding."""
 from harness.common import known_predicate
 
 
